@@ -207,7 +207,7 @@ def run(ctx):
     # its own schema forbids.
     go = ctx.body(JC + "::gen_json_object")
     nxt = [bi for bi, t in go.calls() if t["f"].get("def", "").endswith("::next") and "Chain" in t["f"].get("def", "")]
-    resv = [bi for bi, t in go.calls() if t["f"].get("def", "").endswith("Vec::<T, A>::push") and "json_dumps" in repr(go.expr(t["args"][1]))]
+    resv = [bi for bi, t in go.calls() if t["f"].get("def", "").endswith("Vec::<T, A>::push") and ("json_dumps" in repr(go.expr(t["args"][1])) or "serde_json::" in repr(go.expr(t["args"][1])))]
     if ctx.floor("C06-R5", "property-name loop in gen_json_object", len(nxt), 1) and ctx.floor("C06-R5", "pushes of the quoted property name", len(resv), 1):
         n = nxt[0]
         some = []
